@@ -18,6 +18,10 @@ func chunkSize(kind string) int {
 		return 25
 	case kind == "hist:bigshape":
 		return 3
+	case strings.HasPrefix(kind, "hist:largegraph") || strings.HasSuffix(kind, "graph"):
+		return 12
+	case strings.HasPrefix(kind, "hist:large") || strings.HasSuffix(kind, "big"):
+		return 100
 	case strings.HasPrefix(kind, "small"):
 		return 20000
 	case strings.HasPrefix(kind, "tiny") || strings.HasPrefix(kind, "difftiny"):
@@ -319,6 +323,16 @@ func shrinkCase(prop string, c *Case, rule string) *Case {
 	}
 	cur := c.H.Clone()
 	budget := 600
+	if n := len(c.H.Fns); n > 60 {
+		// every attempt re-executes the history: big histories (profiles large*, genBigShape) get few
+		budget = 600 * 60 / n
+		if budget < 25 {
+			budget = 25
+		}
+		if n > 300 {
+			budget = 8
+		}
+	}
 	progress := true
 	for progress && budget > 0 {
 		progress = false
